@@ -7,11 +7,12 @@ tables that have only grown, the set-aside stacks as they were and the scope sta
 (`ErrOut`) — every evaluator that starts a nested `Run` restores the control state it captured,
 and that restore is exact on the scope stack and the set-aside stacks because the nested `Run`
 came back to ITS captured state (`run_err`). The successful prefix of every function is covered
-by `allSpec'`. A host panic of a Go builtin is turned into an error by `CallUserFunction`'s
-`recover`; that no builtin panics from a well-formed state is C01's statement and a hypothesis
-here (`NoBuiltinPanic`).
+by `allSpec'`. A host panic of a Go builtin would be turned into an error by `CallUserFunction`'s
+`recover`, at a state nothing is known about; that no builtin panics from a state without nil
+cells is `RunInv.sSpec` (Proofs/RunSafe.lean), so every specification here also assumes `NoNil`
+(no nil cell, a scope to bind in) — which `sSpec` hands on along the successful prefix.
 -/
-import ZygoVerif.Proofs.RunErr
+import ZygoVerif.Proofs.RunSafe
 set_option linter.unusedSimpArgs false
 set_option linter.unusedVariables false
 namespace ZygoVerif.RunInv
@@ -55,63 +56,36 @@ theorem ErrOut.pre {s s1 s' : St} (he : TExt s s1) (hs : s1.suspended = s.suspen
 theorem ErrOut.faultOK {b : Base} {s s' : St} {top : Act} {rest : List Act} (hr : Running b s top rest) (h : ErrOut s s') :
     FaultOK b s s' := ⟨h.tab, h.ext, h.susp, by rw [h.lin]; exact hr.lin⟩
 
-/-- C01's statement about the Go builtins, as far as it is needed here: from a well-formed state
-no builtin ends in a host panic (`CallUserFunction` would turn it into an error) -/
-def NoBuiltinPanic : Prop :=
-  ∀ (n : Nat) (name : String) (args : List Val) (s s' : St), WF s → s.pc = -1 → (∀ a ∈ args, vok s.fns.length a = true) →
-    (builtin n name args).run s ≠ (.error .panic, s')
-
 /-- the error specifications of the functions of the mutual block, at one fuel -/
 structure ErrSpec (n : Nat) : Prop where
-  exec : ∀ (b : Base) (s s' : St) (top : Act) (rest : List Act) (i : Instr), WF s → Running b s top rest →
+  exec : ∀ (b : Base) (s s' : St) (top : Act) (rest : List Act) (i : Instr), NoNil s → WF s → Running b s top rest →
     (fnOf s s.curfunc).code[s.pc.toNat]? = some i → (exec n i).run s = (.error .err, s') → FaultOK b s s'
-  resolved : ∀ (s s' : St) (f : Val) (args : List Expr), WF s → okLs args = true →
+  resolved : ∀ (s s' : St) (f : Val) (args : List Expr), NoNil s → WF s → okLs args = true →
     (callResolved n f args).run s = (.error .err, s') → ErrOut s s'
-  loop : ∀ (b : Base) (st : CtlState) (s s' : St), WF s → Live b s → b.pc = -2 → b.main = false →
+  loop : ∀ (b : Base) (st : CtlState) (s s' : St), NoNil s → WF s → Live b s → b.linear ≠ [] → b.pc = -2 → b.main = false →
     (runLoop n st).run s = (.error .err, s') →
     ∃ s₀ s₁, TExt s s₀ ∧ s₀.suspended = s.suspended ∧ FaultOK b s₀ s₁ ∧ s' = park (restoreSt st s₁)
-  run : ∀ (b : Base) (s s' : St) (top : Act), WF s → Running b s top [] → b.pc = -2 → b.main = false → b.linear = s.linear →
+  run : ∀ (b : Base) (s s' : St) (top : Act), NoNil s → WF s → Running b s top [] → b.pc = -2 → b.main = false → b.linear = s.linear →
     (run n).run s = (.error .err, s') → ErrOut s s'
-  nested : ∀ (f : Nat) (st : CtlState) (s s' : St), WF s → 2 ≤ f → f < s.fns.length →
+  nested : ∀ (f : Nat) (st : CtlState) (s s' : St), NoNil s → WF s → 2 ≤ f → f < s.fns.length →
     (fnOf s f).params.length = 0 → s.pc = -2 → (nested n f st).run s = (.error .err, s') →
     ∃ s2, s' = restoreSt st s2 ∧ ErrOut s s2
-  eval : ∀ (e : Expr) (s s' : St), WF s → okL e = true → (evalCallExpr n e).run s = (.error .err, s') → ErrOut s s'
-  prep : ∀ (f : Option FnObj) (i : Nat) (args : List Expr) (s s' : St), WF s → okLs args = true →
+  eval : ∀ (e : Expr) (s s' : St), NoNil s → WF s → okL e = true → (evalCallExpr n e).run s = (.error .err, s') → ErrOut s s'
+  prep : ∀ (f : Option FnObj) (i : Nat) (args : List Expr) (s s' : St), NoNil s → WF s → okLs args = true →
     (prepareArgs n f i args).run s = (.error .err, s') → ErrOut s s'
-  user : ∀ (name : String) (k : Nat) (s s' : St) (tail : List Cell), WF s →
+  user : ∀ (name : String) (k : Nat) (s s' : St) (tail : List Cell), NoNil s → WF s →
     s.data.map cellOf = List.replicate k .val ++ tail → (callUser n name k).run s = (.error .err, s') → ErrOut s s'
-  builtin : ∀ (name : String) (args : List Val) (s s' : St), WF s → s.pc = -1 → (∀ a ∈ args, vok s.fns.length a = true) →
+  builtin : ∀ (name : String) (args : List Val) (s s' : St), NoNil s → WF s → s.pc = -1 → (∀ a ∈ args, vok s.fns.length a = true) →
     (builtin n name args).run s = (.error .err, s') → ErrOut s s'
-  apply : ∀ (f : Val) (args : List Val) (s s' : St), WF s → s.pc = -1 → vok s.fns.length f = true →
+  apply : ∀ (f : Val) (args : List Val) (s s' : St), NoNil s → WF s → s.pc = -1 → vok s.fns.length f = true →
     (∀ a ∈ args, vok s.fns.length a = true) → (applyFn n f args).run s = (.error .err, s') → ErrOut s s'
-  mapArr : ∀ (f : Val) (r i k : Nat) (s s' : St), WF s → s.pc = -1 → vok s.fns.length f = true →
+  mapArr : ∀ (f : Val) (r i k : Nat) (s s' : St), NoNil s → WF s → s.pc = -1 → vok s.fns.length f = true →
     (mapArr n f r i k).run s = (.error .err, s') → ErrOut s s'
-  mapList : ∀ (f l : Val) (s s' : St), WF s → s.pc = -1 → vok s.fns.length f = true → vok s.fns.length l = true →
+  mapList : ∀ (f l : Val) (s s' : St), NoNil s → WF s → s.pc = -1 → vok s.fns.length f = true → vok s.fns.length l = true →
     (mapList n f l).run s = (.error .err, s') → ErrOut s s'
-  force : ∀ (id : Nat) (s s' : St), WF s → (forceLazy n id).run s = (.error .err, s') → ErrOut s s'
+  force : ∀ (id : Nat) (s s' : St), NoNil s → WF s → (forceLazy n id).run s = (.error .err, s') → ErrOut s s'
 
 /-! ## `CallFunction` fails before it changes anything but the variadic tail -/
-
-theorem wrangle_frame (a b : Nat) (s : St) :
-    ((wrangleOptargs a b).run s).2.linear = s.linear ∧ ((wrangleOptargs a b).run s).2.suspended = s.suspended ∧
-      ((wrangleOptargs a b).run s).2.loopstack = s.loopstack := by
-  unfold wrangleOptargs
-  split
-  · exact ⟨rfl, rfl, rfl⟩
-  · split
-    · rw [run_bind]
-      have hp : ((popN (b - a)).run s).2.linear = s.linear ∧ ((popN (b - a)).run s).2.suspended = s.suspended ∧
-          ((popN (b - a)).run s).2.loopstack = s.loopstack := by
-        rw [Contain.run_popN]
-        split
-        · exact ⟨rfl, rfl, rfl⟩
-        · split <;> exact ⟨rfl, rfl, rfl⟩
-      rcases hr : (popN (b - a)).run s with ⟨r, s1⟩
-      rw [hr] at hp
-      cases r with
-      | ok xs => exact hp
-      | error e => exact hp
-    · exact ⟨rfl, rfl, rfl⟩
 
 theorem callFunction_err (f k : Nat) (s s' : St) (hw : WF s) (h : (callFunction f k).run s = (.error .err, s')) :
     ErrOut s s' := by
@@ -144,8 +118,8 @@ theorem callFunction_err (f k : Nat) (s s' : St) (hw : WF s) (h : (callFunction 
 
 /-! ## `runLoop`, `run`, `nested` -/
 
-theorem loop_err (n : Nat) (ih : AllSpec n) (ihe : ErrSpec n) (b : Base) (st : CtlState) (s s' : St) (hw : WF s) (hl : Live b s)
-    (hb : b.pc = -2) (hm : b.main = false) (hex : (runLoop (n + 1) st).run s = (.error .err, s')) :
+theorem loop_err (n : Nat) (ih : AllSpec n) (ihe : ErrSpec n) (b : Base) (st : CtlState) (s s' : St) (hg : NoNil s) (hw : WF s)
+    (hl : Live b s) (hbl : b.linear ≠ []) (hb : b.pc = -2) (hm : b.main = false) (hex : (runLoop (n + 1) st).run s = (.error .err, s')) :
     ∃ s₀ s₁, TExt s s₀ ∧ s₀.suspended = s.suspended ∧ FaultOK b s₀ s₁ ∧ s' = park (restoreSt st s₁) := by
   rcases hl with ⟨top, rest, hr⟩ | hf
   · obtain ⟨hns, i, hi⟩ := hr.fetch (hr.A_pos hm)
@@ -158,20 +132,21 @@ theorem loop_err (n : Nat) (ih : AllSpec n) (ihe : ErrSpec n) (b : Base) (st : C
       cases e with
       | err =>
         simp only [run_bind, run_restore, run_modify, run_throw] at hex
-        refine ⟨s, s1, TExt.refl _, rfl, ihe.exec b s s1 top rest i hw hr hi hx, ?_⟩
+        refine ⟨s, s1, TExt.refl _, rfl, ihe.exec b s s1 top rest i hg hw hr hi hx, ?_⟩
         injection hex with _ h2
         exact h2.symm
       | panic => simp only [run_throw] at hex; cases hex
       | timeout => simp only [run_throw] at hex; cases hex
     | ok u =>
       obtain ⟨hw1, he1, hl1, hs1⟩ := ih.exec b s s1 top rest i hw hr hi hx
-      obtain ⟨s₀, s₁, q1, q2, q3, q4⟩ := ihe.loop b st s1 s' hw1 hl1.live hb hm hex
+      have hg1 : NoNil s1 := ((sSpec n).exec b s top rest i hg hw hr hbl hi _ s1 hx).2 u rfl
+      obtain ⟨s₀, s₁, q1, q2, q3, q4⟩ := ihe.loop b st s1 s' hg1 hw1 hl1.live hbl hb hm hex
       exact ⟨s₀, s₁, he1.trans q1, q2.trans hs1, q3, q4⟩
   · have hpc : s.pc = -1 := by rw [hf.pc, hb]; rfl
     rw [runLoop_finished n st s hpc] at hex
     cases hex
 
-theorem run_err (n : Nat) (ih : AllSpec n) (ihe : ErrSpec n) (b : Base) (s s' : St) (top : Act) (hw : WF s)
+theorem run_err (n : Nat) (ih : AllSpec n) (ihe : ErrSpec n) (b : Base) (s s' : St) (top : Act) (hg : NoNil s) (hw : WF s)
     (hr : Running b s top []) (hb : b.pc = -2) (hm : b.main = false) (hlin : b.linear = s.linear)
     (hex : (run (n + 1)).run s = (.error .err, s')) : ErrOut s s' := by
   rw [run_succ_eq] at hex
@@ -186,7 +161,7 @@ theorem run_err (n : Nat) (ih : AllSpec n) (ihe : ErrSpec n) (b : Base) (s s' : 
     subst h2
     injection h1 with h1
     subst h1
-    obtain ⟨s₀, s₁, q1, q2, q3, rfl⟩ := ihe.loop b _ s s2 hw (Or.inl ⟨top, [], hr⟩) hb hm hl
+    obtain ⟨s₀, s₁, q1, q2, q3, rfl⟩ := ihe.loop b _ s s2 hg hw (Or.inl ⟨top, [], hr⟩) (by rw [hlin]; exact hg.lin) hb hm hl
     have hsu : s₁.suspended = s.suspended := q3.susp.trans q2
     have hla : linAt (captureOf s) s₁ = s₁.linear := by
       unfold linAt captureOf
@@ -199,7 +174,7 @@ theorem run_err (n : Nat) (ih : AllSpec n) (ihe : ErrSpec n) (b : Base) (s s' : 
     rw [hla]
     exact truncate_of_suffix _ _ (by rw [← hlin]; exact q3.lin)
 
-theorem nested_err (n : Nat) (ih : AllSpec n) (ihe : ErrSpec n) (f : Nat) (st : CtlState) (s s' : St) (hw : WF s) (h2 : 2 ≤ f)
+theorem nested_err (n : Nat) (ih : AllSpec n) (ihe : ErrSpec n) (f : Nat) (st : CtlState) (s s' : St) (hg : NoNil s) (hw : WF s) (h2 : 2 ≤ f)
     (hlt : f < s.fns.length) (hp0 : (fnOf s f).params.length = 0) (hpc : s.pc = -2)
     (hex : (nested (n + 1) f st).run s = (.error .err, s')) : ∃ s2, s' = restoreSt st s2 ∧ ErrOut s s2 := by
   simp only [VM.nested] at hex
@@ -227,8 +202,8 @@ theorem nested_err (n : Nat) (ih : AllSpec n) (ihe : ErrSpec n) (f : Nat) (st : 
         exact callFunction_err f 0 s s2 hw hc
       | ok u =>
         simp only at hm
-        have hg := hw.fns f h2 hlt
-        obtain ⟨c1, c2, c3, c4, c5, c6, c7, hw1, c9⟩ := callFunction_ok f 0 s s1 (s.data.map cellOf) hw hg rfl hc
+        have hgd := hw.fns f h2 hlt
+        obtain ⟨c1, c2, c3, c4, c5, c6, c7, hw1, c9⟩ := callFunction_ok f 0 s s1 (s.data.map cellOf) hw hgd rfl hc
         rw [hp0] at c9
         simp only [List.replicate_zero, List.nil_append] at c9
         have hid1 : f < s1.fns.length := by rw [c6]; exact hlt
@@ -243,7 +218,8 @@ theorem nested_err (n : Nat) (ih : AllSpec n) (ihe : ErrSpec n) (f : Nat) (st : 
             rw [c9, hfo, hp0]; rfl
           · show s1.linear.length = _; rw [c4]
           · show s1.addr.length = _; rw [c3]; simp
-        have := ihe.run b s1 s2 _ hw1 hrun rfl rfl c4.symm hm
+        have hg1 : NoNil s1 := (callFunction_safe' f 0 s hg _ s1 hc).2 u rfl
+        have := ihe.run b s1 s2 _ hg1 hw1 hrun rfl rfl c4.symm hm
         exact this.pre (TExt.same c6 c7) c5 c4
 
 /-! ## `evalCallExpr` -/
@@ -291,6 +267,7 @@ theorem thunk_err (n : Nat) (ihe : ErrSpec n) (name : String) (s1 s' : St) (code
     (par : Option Nat) (hw1 : WF s1) (hc : AllOK (szS s1) code)
     (hv : ∃ ann, verify { kind := .fn, nformals := 0, varargs := false, nfixed := 0, code := B s1.loops (code ++ [Instr.ret]) } ann = true)
     (st : CtlState) (lin : List (Option Nat)) (susp : List (List (Option Nat)))
+    (hgt : NoNil (thunkSt s1 (thunkObj name code cl par) lin susp))
     (hex : (nested n s1.fns.length st).run (thunkSt s1 (thunkObj name code cl par) lin susp) = (.error .err, s')) :
     ∃ s2, s' = restoreSt st s2 ∧ WFd s2 ∧ TExt s1 s2 ∧ s2.suspended = susp ∧ s2.linear = lin := by
   obtain ⟨hw2, hg2⟩ := wf_mkThunk name code cl par hw1 hc hv
@@ -300,11 +277,11 @@ theorem thunk_err (n : Nat) (ihe : ErrSpec n) (name : String) (s1 s' : St) (code
     show (s1.fns ++ [_]).getD s1.fns.length {} = _
     rw [List.getD_eq_getElem?_getD, List.getElem?_append_right (Nat.le_refl _), Nat.sub_self]
     rfl
-  obtain ⟨s2, h1, h2⟩ := ihe.nested s1.fns.length st _ s' hw3 hw1.two (by simp [thunkSt]) (by rw [hfo]; rfl) rfl hex
+  obtain ⟨s2, h1, h2⟩ := ihe.nested s1.fns.length st _ s' hgt hw3 hw1.two (by simp [thunkSt]) (by rw [hfo]; rfl) rfl hex
   exact ⟨s2, h1, h2.tab,
     (show TExt s1 (thunkSt s1 (thunkObj name code cl par) lin susp) from ⟨⟨_, rfl⟩, ⟨[], by simp [thunkSt]⟩⟩).trans h2.ext, h2.susp, h2.lin⟩
 
-theorem eval_err (n : Nat) (ih : AllSpec n) (ihe : ErrSpec n) (e : Expr) (s s' : St) (hw : WF s) (hok : okL e = true)
+theorem eval_err (n : Nat) (ih : AllSpec n) (ihe : ErrSpec n) (e : Expr) (s s' : St) (hg : NoNil s) (hw : WF s) (hok : okL e = true)
     (hex : (evalCallExpr (n + 1) e).run s = (.error .err, s')) : ErrOut s s' := by
   unfold VM.evalCallExpr at hex
   split at hex
@@ -317,17 +294,17 @@ theorem eval_err (n : Nat) (ih : AllSpec n) (ihe : ErrSpec n) (e : Expr) (s s' :
   · rw [run_bind, run_get] at hex
     dsimp only at hex
     rw [run_bind] at hex
-    rcases hg : (runGen (compile (isFnScope s) {} e)).run s with ⟨r, s1⟩
-    rw [hg] at hex
+    rcases hgn : (runGen (compile (isFnScope s) {} e)).run s with ⟨r, s1⟩
+    rw [hgn] at hex
     cases r with
     | error er =>
-      have := runGen_err _ s s1 er hg
+      have := runGen_err _ s s1 er hgn
       subst this
       cases hex
       exact ErrOut.refl hw
     | ok ct =>
       obtain ⟨code, t⟩ := ct
-      obtain ⟨hw1, he1, g1, g2, g3, g4, g5, g6, g7, g8, g9, hcode, hver⟩ := wf_runGen (isFnScope s) e code t hw hok hg
+      obtain ⟨hw1, he1, g1, g2, g3, g4, g5, g6, g7, g8, g9, hcode, hver⟩ := wf_runGen (isFnScope s) e code t hw hok hgn
       dsimp only at hex
       split at hex
       · simp only [run_pure] at hex; cases hex
@@ -339,29 +316,39 @@ theorem eval_err (n : Nat) (ih : AllSpec n) (ihe : ErrSpec n) (e : Expr) (s s' :
         dsimp only at hex
         rw [run_bind, run_modify] at hex
         dsimp only at hex
+        have hg1 : NoNil s1 := hg.same g1 g2 g3 g6 g9
         obtain ⟨s2, h1, hw2, he2, su2, l2⟩ :=
-          thunk_err n ihe "callExprEval" s1 s' code _ _ hw1 hcode hver (captureOf s1) s1.linear s1.suspended hex
+          thunk_err n ihe "callExprEval" s1 s' code _ _ hw1 hcode hver (captureOf s1) s1.linear s1.suspended
+            (hg1.same rfl rfl rfl rfl rfl) hex
         obtain ⟨r1, r2⟩ := restore_lin s1 s2 l2 su2
         rw [h1]
         exact ⟨hw2.restore _, he1.trans (he2.trans (TExt.same rfl rfl)), r2.trans g6, r1.trans g2⟩
 
 /-! ## `prepareArgs` -/
 
-theorem prep_lazy_any (e : Expr) (k : M Unit) (s s' : St) (r : Except Fault Unit) (hw : WF s) (hok : okL e = true)
+theorem prep_lazy_any (e : Expr) (k : M Unit) (s s' : St) (r : Except Fault Unit) (hg : NoNil s) (hw : WF s) (hok : okL e = true)
     (hex : (do
       let t ← get
       set { t with lazies := t.lazies ++ [({ e, stack := t.linear, curfunc := t.curfunc, value := none } : LazyObj)] }
       pushData (.lazy t.lazies.length)
       k : M Unit).run s = (r, s')) :
-    ∃ s1, WF s1 ∧ TExt s s1 ∧ s1.linear = s.linear ∧ s1.suspended = s.suspended ∧ k.run s1 = (r, s') := by
+    ∃ s1, NoNil s1 ∧ WF s1 ∧ TExt s s1 ∧ s1.linear = s.linear ∧ s1.suspended = s.suspended ∧ k.run s1 = (r, s') := by
   rw [run_bind, run_get] at hex
   dsimp only at hex
   rw [run_bind, run_set] at hex
   dsimp only at hex
   rw [run_bind, run_pushData] at hex
   dsimp only at hex
-  refine ⟨{ s with lazies := s.lazies ++ [({ e, stack := s.linear, curfunc := s.curfunc, value := none } : LazyObj)],
-                   data := some (.lazy s.lazies.length) :: s.data }, ?_, TExt.same rfl rfl, rfl, rfl, hex⟩
+  refine ⟨prepLazySt s e, ?_, ?_, TExt.same rfl rfl, rfl, rfl, hex⟩
+  · refine ⟨⟨VMSafe.allSome_cons hg.good.data, hg.good.linear, hg.good.addr, hg.good.susp, ?_⟩, hg.lin, ?_⟩
+    · intro z hz
+      rcases List.mem_append.mp hz with hm | hm
+      · exact hg.good.lazies z hm
+      · simp only [List.mem_cons, List.mem_nil_iff, or_false] at hm; subst hm; exact hg.good.linear
+    · intro z hz hv
+      rcases List.mem_append.mp hz with hm | hm
+      · exact hg.lz z hm hv
+      · simp only [List.mem_cons, List.mem_nil_iff, or_false] at hm; subst hm; exact hg.lin
   refine hw.grow (TExt.same rfl rfl) (fun j h1 h2 => absurd h2 (Nat.not_lt.mpr h1)) rfl rfl rfl ?_ ?_
   · intro lz hlz
     rcases List.mem_append.mp hlz with hm | hm
@@ -374,55 +361,56 @@ theorem prep_lazy_any (e : Expr) (k : M Unit) (s s' : St) (r : Except Fault Unit
     · right; trivial
     · left; exact hcm
 
-theorem prep_eval_err (n : Nat) (ih : AllSpec n) (ihe : ErrSpec n) (e : Expr) (k : M Unit) (s s' : St) (hw : WF s) (hok : okL e = true)
+theorem prep_eval_err (n : Nat) (ih : AllSpec n) (ihe : ErrSpec n) (e : Expr) (k : M Unit) (s s' : St) (hg : NoNil s) (hw : WF s) (hok : okL e = true)
     (hex : (do
       let v ← evalCallExpr n e
       pushData v
       k : M Unit).run s = (.error .err, s')) :
-    ErrOut s s' ∨ ∃ s1, WF s1 ∧ TExt s s1 ∧ s1.linear = s.linear ∧ s1.suspended = s.suspended ∧ k.run s1 = (.error .err, s') := by
+    ErrOut s s' ∨ ∃ s1, NoNil s1 ∧ WF s1 ∧ TExt s s1 ∧ s1.linear = s.linear ∧ s1.suspended = s.suspended ∧ k.run s1 = (.error .err, s') := by
   rw [run_bind] at hex
   rcases hev : (evalCallExpr n e).run s with ⟨r, s0⟩
   rw [hev] at hex
   cases r with
   | error er =>
     cases hex
-    exact Or.inl (ihe.eval e s s' hw hok hev)
+    exact Or.inl (ihe.eval e s s' hg hw hok hev)
   | ok v =>
     dsimp only at hex
     rw [run_bind, run_pushData] at hex
     dsimp only at hex
     obtain ⟨hk, hv⟩ := ih.eval e s s0 v hw hok hev
-    refine Or.inr ⟨{ s0 with data := some v :: s0.data }, ?_, hk.ext.trans (TExt.same rfl rfl), hk.same.linear, hk.same.susp, hex⟩
+    have hg0 : NoNil s0 := ((sSpec n).eval e s hg hw hok _ s0 hev).2 v rfl
+    refine Or.inr ⟨{ s0 with data := some v :: s0.data }, hg0.push v, ?_, hk.ext.trans (TExt.same rfl rfl), hk.same.linear, hk.same.susp, hex⟩
     refine hk.wf.setData _ _ ?_
     intro c hcm
     rcases List.mem_cons.mp hcm with rfl | hcm
     · exact cellOK_of_vok hv
     · exact hk.wf.data c hcm
 
-theorem prep_err (n : Nat) (ih : AllSpec n) (ihe : ErrSpec n) (args : List Expr) (f : Option FnObj) (i : Nat) (s s' : St) (hw : WF s)
+theorem prep_err (n : Nat) (ih : AllSpec n) (ihe : ErrSpec n) (args : List Expr) (f : Option FnObj) (i : Nat) (s s' : St) (hg : NoNil s) (hw : WF s)
     (hok : okLs args = true) (hex : (prepareArgs (n + 1) f i args).run s = (.error .err, s')) : ErrOut s s' := by
   cases args with
   | nil => simp only [VM.prepareArgs, run_pure] at hex; cases hex
   | cons e es =>
     simp only [okLs, Bool.and_eq_true] at hok
     unfold VM.prepareArgs at hex
-    have key : ErrOut s s' ∨ ∃ s1, WF s1 ∧ TExt s s1 ∧ s1.linear = s.linear ∧ s1.suspended = s.suspended ∧
+    have key : ErrOut s s' ∨ ∃ s1, NoNil s1 ∧ WF s1 ∧ TExt s s1 ∧ s1.linear = s.linear ∧ s1.suspended = s.suspended ∧
         (prepareArgs n f (i + 1) es).run s1 = (.error .err, s') := by
       cases f with
       | none =>
         dsimp only at hex
         simp only [Bool.false_eq_true, if_false] at hex
-        exact prep_eval_err n ih ihe e _ s s' hw hok.1 hex
+        exact prep_eval_err n ih ihe e _ s s' hg hw hok.1 hex
       | some fo =>
         dsimp only at hex
         by_cases hl : (!fo.user && fo.hasLazyFormals && fo.isLazyCallArg i) = true
         · simp only [hl, if_true] at hex
-          exact Or.inr (prep_lazy_any e _ s s' _ hw hok.1 hex)
+          exact Or.inr (prep_lazy_any e _ s s' _ hg hw hok.1 hex)
         · simp only [hl, if_false] at hex
-          exact prep_eval_err n ih ihe e _ s s' hw hok.1 hex
-    rcases key with h | ⟨s1, hw1, he1, l1, su1, hrest⟩
+          exact prep_eval_err n ih ihe e _ s s' hg hw hok.1 hex
+    rcases key with h | ⟨s1, hg1, hw1, he1, l1, su1, hrest⟩
     · exact h
-    · exact (ihe.prep f (i + 1) es s1 s' hw1 hok.2 hrest).pre he1 su1 l1
+    · exact (ihe.prep f (i + 1) es s1 s' hg1 hw1 hok.2 hrest).pre he1 su1 l1
 
 /-! ## `callResolved` -/
 
@@ -453,7 +441,7 @@ theorem guarded_err (start : Nat) (m : M Unit) (s s' : St)
 theorem ErrOut.setData {s s1 : St} (h : ErrOut s s1) (d : List (Option Val)) : ErrOut s { s1 with data := d } :=
   ⟨h.tab.same rfl rfl rfl rfl rfl rfl, h.ext.trans (TExt.same rfl rfl), h.susp, h.lin⟩
 
-theorem resolved_err (n : Nat) (ih : AllSpec n) (ihe : ErrSpec n) (s s' : St) (f : Val) (args : List Expr) (hw : WF s)
+theorem resolved_err (n : Nat) (ih : AllSpec n) (ihe : ErrSpec n) (s s' : St) (f : Val) (args : List Expr) (hg : NoNil s) (hw : WF s)
     (hoa : okLs args = true) (hex : (callResolved (n + 1) f args).run s = (.error .err, s')) : ErrOut s s' := by
   unfold VM.callResolved at hex
   rw [run_bind, run_get] at hex
@@ -466,7 +454,7 @@ theorem resolved_err (n : Nat) (ih : AllSpec n) (ihe : ErrSpec n) (s s' : St) (f
     rcases hp : (prepareArgs n (some (fnOf s fid)) 0 args).run s with ⟨r, s1⟩
     rw [hp] at hex'
     cases r with
-    | error e => cases hex'; exact ihe.prep _ _ _ s s2 hw hoa hp
+    | error e => cases hex'; exact ihe.prep _ _ _ s s2 hg hw hoa hp
     | ok u =>
       simp only at hex'
       obtain ⟨hw1, he1, hd1, hl1, ha1, hc1, hp1, hs1⟩ := ih.prep _ _ _ s s1 hw hoa hp
@@ -478,18 +466,19 @@ theorem resolved_err (n : Nat) (ih : AllSpec n) (ihe : ErrSpec n) (s s' : St) (f
     rcases hp : (prepareArgs n none 0 args).run s with ⟨r, s1⟩
     rw [hp] at hex'
     cases r with
-    | error e => cases hex'; exact ihe.prep _ _ _ s s2 hw hoa hp
+    | error e => cases hex'; exact ihe.prep _ _ _ s s2 hg hw hoa hp
     | ok u =>
       simp only at hex'
       obtain ⟨hw1, he1, hd1, hl1, ha1, hc1, hp1, hs1⟩ := ih.prep _ _ _ s s1 hw hoa hp
-      exact (ihe.user name args.length s1 s2 (s.data.map cellOf) hw1 hd1 hex').pre he1 hs1 hl1
+      have hg1 : NoNil s1 := ((sSpec n).prep _ _ _ s hg hw hoa _ s1 hp).2 u rfl
+      exact (ihe.user name args.length s1 s2 (s.data.map cellOf) hg1 hw1 hd1 hex').pre he1 hs1 hl1
   · obtain ⟨s2, hex', rfl⟩ := guarded_err _ _ s s' hex
     apply ErrOut.setData
     rw [run_bind] at hex'
     rcases hp : (prepareArgs n none 0 args).run s with ⟨r, s1⟩
     rw [hp] at hex'
     cases r with
-    | error e => cases hex'; exact ihe.prep _ _ _ s s2 hw hoa hp
+    | error e => cases hex'; exact ihe.prep _ _ _ s s2 hg hw hoa hp
     | ok u =>
       simp only at hex'
       obtain ⟨hw1, he1, hd1, hl1, ha1, hc1, hp1, hs1⟩ := ih.prep _ _ _ s s1 hw hoa hp
@@ -501,8 +490,8 @@ theorem resolved_err (n : Nat) (ih : AllSpec n) (ihe : ErrSpec n) (s s' : St) (f
 
 /-! ## `callUser` -/
 
-theorem user_err (hnp : NoBuiltinPanic) (n : Nat) (ih : AllSpec n) (ihe : ErrSpec n) (name : String) (k : Nat) (s s' : St)
-    (tail : List Cell) (hw : WF s) (hd : s.data.map cellOf = List.replicate k .val ++ tail)
+theorem user_err (n : Nat) (ih : AllSpec n) (ihe : ErrSpec n) (name : String) (k : Nat) (s s' : St)
+    (tail : List Cell) (hg : NoNil s) (hw : WF s) (hd : s.data.map cellOf = List.replicate k .val ++ tail)
     (hex : (callUser (n + 1) name k).run s = (.error .err, s')) : ErrOut s s' := by
   unfold VM.callUser at hex
   rw [run_bind, run_get] at hex
@@ -530,6 +519,8 @@ theorem user_err (hnp : NoBuiltinPanic) (n : Nat) (ih : AllSpec n) (ihe : ErrSpe
         have hw2 : WF s2 :=
           hw.mk' (TExt.same rfl rfl) (fun j h1 h2 => absurd h2 (Nat.not_lt.mpr h1)) hw.loopstack hw.scopes hw.heap hw.lazies
             (fun c hcm => hw.data c (List.mem_of_mem_drop hcm))
+        have hg2 : NoNil s2 :=
+          ⟨⟨VMSafe.allSome_drop hg.good.data k, hg.good.linear, VMSafe.allSome_cons hg.good.addr, hg.good.susp, hg.good.lazies⟩, hg.lin, hg.lz⟩
         rcases hb : (builtin n name vs.reverse).run s2 with ⟨r, s3⟩
         have hb' : (builtin n name vs.reverse).run
             { s with data := s.data.drop k, addr := some (s.curfunc, s.pc + 1) :: s.addr, curfunc := builtinFn, pc := -1 } = (r, s3) := hb
@@ -546,19 +537,19 @@ theorem user_err (hnp : NoBuiltinPanic) (n : Nat) (ih : AllSpec n) (ihe : ErrSpe
         | error e =>
           cases e with
           | timeout => simp only [run_throw] at hex; cases hex
-          | panic => exact absurd hb (hnp n name vs.reverse s2 s3 hw2 rfl (fun a ha => hvs a (List.mem_reverse.mp ha)))
+          | panic => exact absurd rfl ((sSpec n).builtin name vs.reverse s2 hg2 hw2 rfl (fun a ha => hvs a (List.mem_reverse.mp ha)) _ s3 hb).1
           | err =>
             simp only [run_bind, run_restore, run_throw] at hex
             injection hex with _ h2
             subst h2
-            have hb3 := ihe.builtin name vs.reverse s2 s3 hw2 rfl (fun a ha => hvs a (List.mem_reverse.mp ha)) hb
+            have hb3 := ihe.builtin name vs.reverse s2 s3 hg2 hw2 rfl (fun a ha => hvs a (List.mem_reverse.mp ha)) hb
             obtain ⟨r1, r2⟩ := restore_lin { s with data := s.data.drop k } s3 hb3.lin hb3.susp
             exact ⟨hb3.tab.restore _, (show TExt s s2 from TExt.same rfl rfl).trans (hb3.ext.trans (TExt.same rfl rfl)), r2, r1⟩
 
 /-! ## `exec` -/
 
 theorem exec_err (n : Nat) (ih : AllSpec n) (ihe : ErrSpec n) (b : Base) (s s' : St) (top : Act) (rest : List Act) (i : Instr)
-    (hw : WF s) (hr : Running b s top rest) (hf : (fnOf s s.curfunc).code[s.pc.toNat]? = some i)
+    (hg : NoNil s) (hw : WF s) (hr : Running b s top rest) (hf : (fnOf s s.curfunc).code[s.pc.toNat]? = some i)
     (hex : (exec (n + 1) i).run s = (.error .err, s')) : FaultOK b s s' := by
   by_cases hs : simple i = true
   · exact faultOK_simple hw hr hf hs n .err hex
@@ -566,7 +557,7 @@ theorem exec_err (n : Nat) (ih : AllSpec n) (ihe : ErrSpec n) (b : Base) (s s' :
     | callArr k =>
       simp only [exec] at hex
       obtain ⟨tail, ht⟩ := hr.top_vals hf (p := k) (m := 1) rfl
-      exact (ihe.user "array" k s s' tail hw ht hex).faultOK hr
+      exact (ihe.user "array" k s s' tail hg hw ht hex).faultOK hr
     | callExpr c args =>
       have hio := hr.instrOK hf
       simp only [instrOK, Bool.and_eq_true] at hio
@@ -575,17 +566,18 @@ theorem exec_err (n : Nat) (ih : AllSpec n) (ihe : ErrSpec n) (b : Base) (s s' :
       rcases hev : (evalCallExpr n c).run s with ⟨r, s1⟩
       rw [hev] at hex
       cases r with
-      | error e => cases hex; exact (ihe.eval c s s' hw hio.1 hev).faultOK hr
+      | error e => cases hex; exact (ihe.eval c s s' hg hw hio.1 hev).faultOK hr
       | ok f =>
         dsimp only at hex
         obtain ⟨hk, hv⟩ := ih.eval c s s1 f hw hio.1 hev
-        exact ((ihe.resolved s1 s' f args hk.wf hio.2 hex).pre hk.ext hk.same.susp hk.same.linear).faultOK hr
+        have hg1 : NoNil s1 := ((sSpec n).eval c s hg hw hio.1 _ s1 hev).2 f rfl
+        exact ((ihe.resolved s1 s' f args hg1 hk.wf hio.2 hex).pre hk.ext hk.same.susp hk.same.linear).faultOK hr
     | _ => exact absurd rfl hs
 
 /-! ## The Go builtins -/
 
 theorem builtin_err (n : Nat) (ih : AllSpec n) (ihe : ErrSpec n) (name : String) (args : List Val) (s s' : St)
-    (hw : WF s) (hpc : s.pc = -1) (ha : ∀ a ∈ args, vok s.fns.length a = true)
+    (hg : NoNil s) (hw : WF s) (hpc : s.pc = -1) (ha : ∀ a ∈ args, vok s.fns.length a = true)
     (hex : (builtin (n + 1) name args).run s = (.error .err, s')) : ErrOut s s' := by
   unfold VM.builtin at hex
   split at hex
@@ -595,7 +587,7 @@ theorem builtin_err (n : Nat) (ih : AllSpec n) (ihe : ErrSpec n) (name : String)
   split at hex
   · -- force
     split at hex
-    · exact ihe.force _ s s' hw hex
+    · exact ihe.force _ s s' hg hw hex
     · simp only [run_pure] at hex; cases hex
     · cases hex; exact ErrOut.refl hw
   split at hex
@@ -626,11 +618,11 @@ theorem builtin_err (n : Nat) (ih : AllSpec n) (ihe : ErrSpec n) (name : String)
         have hc := ha coll (by simp)
         split at hex
         · rename_i r
-          exact ihe.apply f _ s s' hw hpc hf (heap_get_vok hw r) hex
+          exact ihe.apply f _ s s' hg hw hpc hf (heap_get_vok hw r) hex
         · rename_i a b
           split at hex
           · rename_i xs hxs
-            exact ihe.apply f xs s s' hw hpc hf (listToArray_vok _ xs hxs hc) hex
+            exact ihe.apply f xs s s' hg hw hpc hf (listToArray_vok _ xs hxs hc) hex
           · cases hex; exact ErrOut.refl hw
         · cases hex; exact ErrOut.refl hw
     · cases hex; exact ErrOut.refl hw
@@ -650,7 +642,7 @@ theorem builtin_err (n : Nat) (ih : AllSpec n) (ihe : ErrSpec n) (name : String)
           rcases hm : (mapArr n f r 0 (s.heap.get r).length).run s with ⟨rr, s1⟩
           rw [hm] at hex
           cases rr with
-          | error e => cases hex; exact ihe.mapArr f r 0 _ s s' hw hpc hf hm
+          | error e => cases hex; exact ihe.mapArr f r 0 _ s s' hg hw hpc hf hm
           | ok vs =>
             dsimp only at hex
             rw [run_bind, run_get] at hex
@@ -658,7 +650,7 @@ theorem builtin_err (n : Nat) (ih : AllSpec n) (ihe : ErrSpec n) (name : String)
             simp only [run_bind, run_set, run_pure] at hex
             cases hex
         · rename_i a b
-          exact ihe.mapList f _ s s' hw hpc hf hc hex
+          exact ihe.mapList f _ s s' hg hw hpc hf hc hex
         · cases hex; exact ErrOut.refl hw
     · cases hex; exact ErrOut.refl hw
   · -- the pure builtins
@@ -670,13 +662,13 @@ theorem builtin_err (n : Nat) (ih : AllSpec n) (ihe : ErrSpec n) (name : String)
 
 /-! ## `applyFn`, `mapArr`, `mapList` -/
 
-theorem apply_err (n : Nat) (ih : AllSpec n) (ihe : ErrSpec n) (f : Val) (args : List Val) (s s' : St) (hw : WF s)
+theorem apply_err (n : Nat) (ih : AllSpec n) (ihe : ErrSpec n) (f : Val) (args : List Val) (s s' : St) (hg : NoNil s) (hw : WF s)
     (hpc : s.pc = -1) (hvf : vok s.fns.length f = true) (ha : ∀ a ∈ args, vok s.fns.length a = true)
     (hex : (applyFn (n + 1) f args).run s = (.error .err, s')) : ErrOut s s' := by
   unfold VM.applyFn at hex
   split at hex
   · rename_i name
-    exact ihe.builtin name args s s' hw hpc ha hex
+    exact ihe.builtin name args s s' hg hw hpc ha hex
   · rename_i fid
     simp only [vok, decide_eq_true_eq] at hvf
     rw [run_bind, run_capture] at hex
@@ -691,11 +683,12 @@ theorem apply_err (n : Nat) (ih : AllSpec n) (ihe : ErrSpec n) (f : Val) (args :
     dsimp only at hex
     have hw1 : WF { s with pc := -2 } := hw.setPc _
     obtain ⟨hw2, d2, f2, l2, li2, a2, c2, p2, su2⟩ := applyWrap_spec (fnOf { s with pc := -2 } fid) args { s with pc := -2 } 0 hw1 ha
+    have hg2 := applyWrap_nonil (fnOf { s with pc := -2 } fid) args { s with pc := -2 } 0 (hg.same rfl rfl rfl rfl rfl)
     generalize hs2 : (args.foldl (fun (p : St × Nat) v =>
       if (fnOf { s with pc := -2 } fid).isLazyCallArg p.2 then
         ({ p.1 with lazies := p.1.lazies ++ [({ e := .nilLit, stack := [], curfunc := 0, value := some v, isValue := true } : LazyObj)],
                     data := some (.lazy p.1.lazies.length) :: p.1.data }, p.2 + 1)
-      else ({ p.1 with data := some v :: p.1.data }, p.2 + 1)) ({ s with pc := -2 }, 0)).1 = s2 at hex hw2 d2 f2 l2 li2 a2 c2 p2 su2
+      else ({ p.1 with data := some v :: p.1.data }, p.2 + 1)) ({ s with pc := -2 }, 0)).1 = s2 at hex hw2 d2 f2 l2 li2 a2 c2 p2 su2 hg2
     rw [run_bind, run_set] at hex
     rcases hm : (do callFunction fid args.length; run n : M Val).run s2 with ⟨r, s4⟩
     rw [hm] at hex
@@ -720,8 +713,8 @@ theorem apply_err (n : Nat) (ih : AllSpec n) (ihe : ErrSpec n) (f : Val) (args :
           | ok u =>
             simp only at hm
             have hid2 : fid < s2.fns.length := by rw [f2]; exact hvf.2
-            have hg := hw2.fns fid hvf.1 hid2
-            obtain ⟨c1, c2', c3, c4, c5, c6, c7, hw3, c9⟩ := callFunction_ok fid args.length s2 s3 (s.data.map cellOf) hw2 hg d2 hc
+            have hgd := hw2.fns fid hvf.1 hid2
+            obtain ⟨c1, c2', c3, c4, c5, c6, c7, hw3, c9⟩ := callFunction_ok fid args.length s2 s3 (s.data.map cellOf) hw2 hgd d2 hc
             have hid3 : fid < s3.fns.length := by rw [c6]; exact hid2
             obtain ⟨ann, hV, hact⟩ := actOK_of_good (hw3.fns fid hvf.1 hid3) hid3
             have hfo : fnOf s3 fid = fnOf s2 fid := by simp only [VM.fnOf, c6]
@@ -735,7 +728,8 @@ theorem apply_err (n : Nat) (ih : AllSpec n) (ihe : ErrSpec n) (f : Val) (args :
                 rw [c9, hfo]
               · show s3.linear.length = _; rw [c4, li2]
               · show s3.addr.length = _; rw [c3, a2]; simp
-            have := ihe.run b s3 s4 _ hw3 hrun rfl rfl (by show s.linear = s3.linear; rw [c4, li2]) hm
+            have hg3 : NoNil s3 := (callFunction_safe' fid args.length s2 hg2 _ s3 hc).2 u rfl
+            have := ihe.run b s3 s4 _ hg3 hw3 hrun rfl rfl (by show s.linear = s3.linear; rw [c4, li2]) hm
             exact this.pre (TExt.same c6 c7) c5 c4
         obtain ⟨r1, r2⟩ := restore_lin s s4 (hout.lin.trans li2) (hout.susp.trans su2)
         exact ⟨hout.tab.restore _, he2.trans (hout.ext.trans (TExt.same rfl rfl)), r2, r1⟩
@@ -744,7 +738,7 @@ theorem apply_err (n : Nat) (ih : AllSpec n) (ihe : ErrSpec n) (f : Val) (args :
 theorem ErrOut.ofKept {s s1 s' : St} (hk : Kept s s1) (h : ErrOut s1 s') : ErrOut s s' :=
   h.pre hk.ext hk.same.susp hk.same.linear
 
-theorem mapArr_err (n : Nat) (ih : AllSpec n) (ihe : ErrSpec n) (f : Val) (r i k : Nat) (s s' : St) (hw : WF s) (hpc : s.pc = -1)
+theorem mapArr_err (n : Nat) (ih : AllSpec n) (ihe : ErrSpec n) (f : Val) (r i k : Nat) (s s' : St) (hg : NoNil s) (hw : WF s) (hpc : s.pc = -1)
     (hvf : vok s.fns.length f = true) (hex : (mapArr (n + 1) f r i k).run s = (.error .err, s')) : ErrOut s s' := by
   unfold VM.mapArr at hex
   split at hex
@@ -763,7 +757,7 @@ theorem mapArr_err (n : Nat) (ih : AllSpec n) (ihe : ErrSpec n) (f : Val) (r i k
     rcases ha : (applyFn n f [(s.heap.get r).getD i .nil]).run s with ⟨rr, s1⟩
     rw [ha] at hex
     cases rr with
-    | error e => cases hex; exact ihe.apply f _ s s' hw hpc hvf harg ha
+    | error e => cases hex; exact ihe.apply f _ s s' hg hw hpc hvf harg ha
     | ok v =>
       dsimp only at hex
       rw [run_bind] at hex
@@ -773,10 +767,10 @@ theorem mapArr_err (n : Nat) (ih : AllSpec n) (ihe : ErrSpec n) (f : Val) (r i k
       cases rr2 with
       | error e =>
         cases hex
-        exact ErrOut.ofKept hk1 (ihe.mapArr f r (i + 1) k s1 s' hk1.wf (hk1.same.pc.trans hpc) (kept_vok_mono hk1 hvf) hm)
+        exact ErrOut.ofKept hk1 (ihe.mapArr f r (i + 1) k s1 s' (((sSpec n).apply f _ s hg hw hpc hvf harg _ s1 ha).2 v rfl) hk1.wf (hk1.same.pc.trans hpc) (kept_vok_mono hk1 hvf) hm)
       | ok ws => simp only [run_pure] at hex; cases hex
 
-theorem mapList_err (n : Nat) (ih : AllSpec n) (ihe : ErrSpec n) (f l : Val) (s s' : St) (hw : WF s) (hpc : s.pc = -1)
+theorem mapList_err (n : Nat) (ih : AllSpec n) (ihe : ErrSpec n) (f l : Val) (s s' : St) (hg : NoNil s) (hw : WF s) (hpc : s.pc = -1)
     (hvf : vok s.fns.length f = true) (hvl : vok s.fns.length l = true) (hex : (mapList (n + 1) f l).run s = (.error .err, s')) :
     ErrOut s s' := by
   unfold VM.mapList at hex
@@ -789,7 +783,7 @@ theorem mapList_err (n : Nat) (ih : AllSpec n) (ihe : ErrSpec n) (f l : Val) (s 
     rcases ha : (applyFn n f [a]).run s with ⟨rr, s1⟩
     rw [ha] at hex
     cases rr with
-    | error e => cases hex; exact ihe.apply f [a] s s' hw hpc hvf harg ha
+    | error e => cases hex; exact ihe.apply f [a] s s' hg hw hpc hvf harg ha
     | ok w =>
       dsimp only at hex
       rw [run_bind] at hex
@@ -799,7 +793,7 @@ theorem mapList_err (n : Nat) (ih : AllSpec n) (ihe : ErrSpec n) (f l : Val) (s 
       cases rr2 with
       | error e =>
         cases hex
-        exact ErrOut.ofKept hk1 (ihe.mapList f b s1 s' hk1.wf (hk1.same.pc.trans hpc) (kept_vok_mono hk1 hvf)
+        exact ErrOut.ofKept hk1 (ihe.mapList f b s1 s' (((sSpec n).apply f [a] s hg hw hpc hvf harg _ s1 ha).2 w rfl) hk1.wf (hk1.same.pc.trans hpc) (kept_vok_mono hk1 hvf)
           (kept_vok_mono hk1 hvl.2) hm)
       | ok t => simp only [run_pure] at hex; cases hex
   · cases hex; exact ErrOut.refl hw
@@ -815,7 +809,7 @@ theorem bind_err_inv {α β} (m : M α) (k : α → M β) (s s' : St) (e : Fault
   | error e' => cases h; exact Or.inl rfl
   | ok a => exact Or.inr ⟨a, s1, rfl, h⟩
 
-theorem force_err (n : Nat) (ih : AllSpec n) (ihe : ErrSpec n) (id : Nat) (s s' : St) (hw : WF s)
+theorem force_err (n : Nat) (ih : AllSpec n) (ihe : ErrSpec n) (id : Nat) (s s' : St) (hg : NoNil s) (hw : WF s)
     (hex : (forceLazy (n + 1) id).run s = (.error .err, s')) : ErrOut s s' := by
   unfold VM.forceLazy at hex
   rw [run_bind, run_get] at hex
@@ -823,21 +817,26 @@ theorem force_err (n : Nat) (ih : AllSpec n) (ihe : ErrSpec n) (id : Nat) (s s' 
   split at hex
   · cases hex; exact ErrOut.refl hw
   · rename_i lz hlz
-    have hlzm := hw.lazies lz (List.mem_of_getElem? hlz)
-    split at hex
-    · simp only [run_pure] at hex; cases hex
-    · rw [run_bind] at hex
-      rcases hg : (runGen (compile (isFnScope s) {} lz.e)).run s with ⟨r, s1⟩
-      rw [hg] at hex
+    have hmem : lz ∈ s.lazies := List.mem_of_getElem? hlz
+    have hlzm := hw.lazies lz hmem
+    have hst : VMSafe.allSome lz.stack := hg.good.lazies lz hmem
+    cases hval : lz.value with
+    | some v0 => simp only [hval, run_pure] at hex; cases hex
+    | none =>
+      simp only [hval] at hex
+      rw [run_bind] at hex
+      rcases hgn : (runGen (compile (isFnScope s) {} lz.e)).run s with ⟨r, s1⟩
+      rw [hgn] at hex
       cases r with
       | error er =>
-        have := runGen_err _ s s1 er hg
+        have := runGen_err _ s s1 er hgn
         subst this
         cases hex
         exact ErrOut.refl hw
       | ok ct =>
         obtain ⟨code, t⟩ := ct
-        obtain ⟨hw1, he1, g1, g2, g3, g4, g5, g6, g7, g8, g9, hcode, hver⟩ := wf_runGen (isFnScope s) lz.e code t hw hlzm.1 hg
+        obtain ⟨hw1, he1, g1, g2, g3, g4, g5, g6, g7, g8, g9, hcode, hver⟩ := wf_runGen (isFnScope s) lz.e code t hw hlzm.1 hgn
+        have hg1 : NoNil s1 := hg.same g1 g2 g3 g6 g9
         dsimp only at hex
         split at hex
         · simp only [run_bind, run_modify, run_pure] at hex; cases hex
@@ -847,10 +846,16 @@ theorem force_err (n : Nat) (ih : AllSpec n) (ihe : ErrSpec n) (id : Nat) (s s' 
           dsimp only at hex
           rw [run_bind, run_modify] at hex
           dsimp only at hex
+          have hgt : NoNil (thunkSt s1 (thunkObj "lazyArgForce" code lz.stack (some lz.curfunc)) lz.stack (s1.linear :: s1.suspended)) := by
+            refine ⟨⟨hg1.good.data, hst, hg1.good.addr, ?_, hg1.good.lazies⟩, hg.lz lz hmem hval, hg1.lz⟩
+            intro l hl
+            rcases List.mem_cons.mp hl with rfl | hl
+            · exact hg1.good.linear
+            · exact hg1.good.susp l hl
           rcases bind_err_inv _ _ _ _ _ hex with hn | ⟨w, s4, hn, hfin⟩
           · obtain ⟨s3, h1, hw3, he3, su3, l3⟩ :=
               thunk_err n ihe "lazyArgForce" s1 s' code lz.stack (some lz.curfunc) hw1 hcode hver
-                (captureOf s1) lz.stack (s1.linear :: s1.suspended) hn
+                (captureOf s1) lz.stack (s1.linear :: s1.suspended) hgt hn
             obtain ⟨r1, r2⟩ := restore_lin_force s1 s3 su3
             rw [h1]
             exact ⟨hw3.restore _, he1.trans (he3.trans (TExt.same rfl rfl)), r2.trans g6, r1.trans g2⟩
@@ -859,46 +864,41 @@ theorem force_err (n : Nat) (ih : AllSpec n) (ihe : ErrSpec n) (id : Nat) (s s' 
 /-! ## The induction on the fuel -/
 
 theorem errSpec_zero : ErrSpec 0 where
-  exec := fun b s s' top rest i _ _ _ h => by simp only [VM.exec, run_throw] at h; cases h
-  resolved := fun s s' f args _ _ h => by simp only [VM.callResolved, run_throw] at h; cases h
-  loop := fun b st s s' _ _ _ _ h => by rw [runLoop_zero] at h; cases h
-  run := fun b s s' top _ _ _ _ _ h => by simp only [VM.run, run_throw] at h; cases h
-  nested := fun f st s s' _ _ _ _ _ h => by simp only [VM.nested, run_throw] at h; cases h
-  eval := fun e s s' _ _ h => by simp only [VM.evalCallExpr, run_throw] at h; cases h
-  prep := fun f i args s s' _ _ h => by
+  exec := fun b s s' top rest i _ _ _ _ h => by simp only [VM.exec, run_throw] at h; cases h
+  resolved := fun s s' f args _ _ _ h => by simp only [VM.callResolved, run_throw] at h; cases h
+  loop := fun b st s s' _ _ _ _ _ _ h => by rw [runLoop_zero] at h; cases h
+  run := fun b s s' top _ _ _ _ _ _ h => by simp only [VM.run, run_throw] at h; cases h
+  nested := fun f st s s' _ _ _ _ _ _ h => by simp only [VM.nested, run_throw] at h; cases h
+  eval := fun e s s' _ _ _ h => by simp only [VM.evalCallExpr, run_throw] at h; cases h
+  prep := fun f i args s s' _ _ _ h => by
     cases args with
     | nil => simp only [VM.prepareArgs, run_throw] at h; cases h
     | cons e es => simp only [VM.prepareArgs, run_throw] at h; cases h
-  user := fun name k s s' tail _ _ h => by simp only [VM.callUser, run_throw] at h; cases h
-  builtin := fun name args s s' _ _ _ h => by simp only [VM.builtin, run_throw] at h; cases h
-  apply := fun f args s s' _ _ _ _ h => by simp only [VM.applyFn, run_throw] at h; cases h
-  mapArr := fun f r i k s s' _ _ _ h => by simp only [VM.mapArr, run_throw] at h; cases h
-  mapList := fun f l s s' _ _ _ _ h => by simp only [VM.mapList, run_throw] at h; cases h
-  force := fun id s s' _ h => by simp only [VM.forceLazy, run_throw] at h; cases h
+  user := fun name k s s' tail _ _ _ h => by simp only [VM.callUser, run_throw] at h; cases h
+  builtin := fun name args s s' _ _ _ _ h => by simp only [VM.builtin, run_throw] at h; cases h
+  apply := fun f args s s' _ _ _ _ _ h => by simp only [VM.applyFn, run_throw] at h; cases h
+  mapArr := fun f r i k s s' _ _ _ _ h => by simp only [VM.mapArr, run_throw] at h; cases h
+  mapList := fun f l s s' _ _ _ _ _ h => by simp only [VM.mapList, run_throw] at h; cases h
+  force := fun id s s' _ _ h => by simp only [VM.forceLazy, run_throw] at h; cases h
 
-theorem errSpec (hnp : NoBuiltinPanic) : ∀ n, ErrSpec n
+/-- **(C2) the error-path contract**, all thirteen functions, outcome `err`, every fuel. -/
+theorem errSpec : ∀ n, ErrSpec n
   | 0 => errSpec_zero
   | n + 1 =>
     have ih := allSpec' n
-    have ihe := errSpec hnp n
-    { exec := fun b s s' top rest i hw hr hf h => exec_err n ih ihe b s s' top rest i hw hr hf h
-      resolved := fun s s' f args hw ho h => resolved_err n ih ihe s s' f args hw ho h
-      loop := fun b st s s' hw hl hb hm h => loop_err n ih ihe b st s s' hw hl hb hm h
-      run := fun b s s' top hw hr hb hm hl h => run_err n ih ihe b s s' top hw hr hb hm hl h
-      nested := fun f st s s' hw h2 hlt hp hpc h => nested_err n ih ihe f st s s' hw h2 hlt hp hpc h
-      eval := fun e s s' hw hok h => eval_err n ih ihe e s s' hw hok h
-      prep := fun f i args s s' hw hok h => prep_err n ih ihe args f i s s' hw hok h
-      user := fun name k s s' tail hw hd h => user_err hnp n ih ihe name k s s' tail hw hd h
-      builtin := fun name args s s' hw hpc ha h => builtin_err n ih ihe name args s s' hw hpc ha h
-      apply := fun f args s s' hw hpc hf ha h => apply_err n ih ihe f args s s' hw hpc hf ha h
-      mapArr := fun f r i k s s' hw hpc hf h => mapArr_err n ih ihe f r i k s s' hw hpc hf h
-      mapList := fun f l s s' hw hpc hf hl h => mapList_err n ih ihe f l s s' hw hpc hf hl h
-      force := fun id s s' hw h => force_err n ih ihe id s s' hw h }
-
-/-- **(C2) the error-path contract of the call instructions**: a failing `callArr`/`callExpr`
-(indeed any failing instruction) fetched by a `Running` loop leaves a `FaultOK` state — given
-that no Go builtin ends in a host panic from a well-formed state. -/
-theorem callFaultOK (hnp : NoBuiltinPanic) : CallFaultOK :=
-  fun b s₀ s₁ top rest i m hw hr hf _ h => (errSpec hnp m).exec b s₀ s₁ top rest i hw hr hf h
+    have ihe := errSpec n
+    { exec := fun b s s' top rest i hg hw hr hf h => exec_err n ih ihe b s s' top rest i hg hw hr hf h
+      resolved := fun s s' f args hg hw ho h => resolved_err n ih ihe s s' f args hg hw ho h
+      loop := fun b st s s' hg hw hl hbl hb hm h => loop_err n ih ihe b st s s' hg hw hl hbl hb hm h
+      run := fun b s s' top hg hw hr hb hm hl h => run_err n ih ihe b s s' top hg hw hr hb hm hl h
+      nested := fun f st s s' hg hw h2 hlt hp hpc h => nested_err n ih ihe f st s s' hg hw h2 hlt hp hpc h
+      eval := fun e s s' hg hw hok h => eval_err n ih ihe e s s' hg hw hok h
+      prep := fun f i args s s' hg hw hok h => prep_err n ih ihe args f i s s' hg hw hok h
+      user := fun name k s s' tail hg hw hd h => user_err n ih ihe name k s s' tail hg hw hd h
+      builtin := fun name args s s' hg hw hpc ha h => builtin_err n ih ihe name args s s' hg hw hpc ha h
+      apply := fun f args s s' hg hw hpc hf ha h => apply_err n ih ihe f args s s' hg hw hpc hf ha h
+      mapArr := fun f r i k s s' hg hw hpc hf h => mapArr_err n ih ihe f r i k s s' hg hw hpc hf h
+      mapList := fun f l s s' hg hw hpc hf hl h => mapList_err n ih ihe f l s s' hg hw hpc hf hl h
+      force := fun id s s' hg hw h => force_err n ih ihe id s s' hg hw h }
 
 end ZygoVerif.RunInv
